@@ -14,6 +14,7 @@ INVARIANTS
   CipherValueLength
   Total
   RejectsMalformed
+  GcmTamperRejected
   BaselineDecrypts
   Emit
 CHECK_DEADLOCK FALSE
